@@ -50,6 +50,7 @@ def run(ctx):
     if ctx.tier == 'thorough':
         cfgs += [V.VecCfg('small', 2, 'U64', 'ntr', alloc=1, pool=1), V.VecCfg('fixed', 8, 'U16', 'tr', pool=1), V.VecCfg('std', 0, 'U8', 'tr', pool=1)]
     total = 0
+    V.build(cfgs)       # one parallel batch; the per-configuration runs below hit the cache
     for cfg in cfgs:
         scripts, ncases = grid(cfg, 5 if ctx.tier == 'quick' else 6)
         total += ncases
